@@ -43,6 +43,13 @@ class Findings:
                     continue
             except Exception:
                 continue
+            if e.get("predictor_fn"):
+                # the wrong value has a closed form: only that exact discrepancy is the known finding
+                try:
+                    if not PREDICTORS[e["predictor_fn"]](w, ctx):
+                        continue
+                except Exception:
+                    continue
             self.hits[e["id"]] = self.hits.get(e["id"], 0) + 1
             w.known.append(e["id"])
             return True
@@ -58,3 +65,36 @@ def load_all(path=PATH):
     if not os.path.exists(path):
         return []
     return json.load(open(path))["findings"]
+
+
+def _pred_hetero_precision(w, ctx):
+    """K02: heteroscedastic condition_on_x returns Sigma(x) correctly but the precision / log-det of the
+    square-A formula  Lambda0 - Lambda0 A_k diag(D/(1+D)) A_k' Lambda0,  ln det Sigma0 + sum ln(1+D)."""
+    import numpy as np
+    from . import ref
+
+    rec = ctx.get("_rec")
+    if rec is None or rec.get("out") not in w.slots:
+        return False
+    c, res = w.obj(rec["a"]), w.obj(rec["out"])
+    A = ref.A
+    x = A(rec["x"])
+    Wm, Am = A(c.W), A(c.A)[0]
+    Dk = Wm.shape[0]
+    h = x @ Wm[:, 1:].T + Wm[:, 0][None]
+    D = A(c.link_function(h))
+    L0, S0 = A(c.Lambda)[0], A(c.Sigma)[0]
+    Ak = Am[:, :Dk]
+    Ainv = L0 @ Ak
+    G = D / (1.0 + D)
+    for n in range(x.shape[0]):
+        Sig = S0 + Ak @ np.diag(D[n]) @ Ak.T
+        Lam = L0 - Ainv @ np.diag(G[n]) @ Ainv.T
+        ld = A(c.ln_det_Sigma)[0] + np.sum(np.log1p(D[n]))
+        ref.cmp_lin("pred", A(res.Sigma)[n], Sig)
+        ref.cmp_lin("pred", A(res.Lambda)[n], Lam)
+        ref.cmp_log("pred", A(res.ln_det_Sigma)[n], ld)
+    return True
+
+
+PREDICTORS = {"hetero_precision": _pred_hetero_precision}
